@@ -50,17 +50,21 @@ Print Assumptions op_levels_match_grammar.
 
 (* tree level, tokens: for every well-formed expression tree of the fragment (identifiers,
    integers, regexps, member access a.b and index access a[b], the conditional c ? y : n,
-   all 11 unary/update and 42 binary/assignment/comma operators)
+   calls f(x, y) and new f(x, y) with argument lists of any length, all 11 unary/update and 42
+   binary/assignment/comma operators), in both whitespace modes (minification omits the empty
+   "()" of a new-expression where the grammar allows it),
    the tokens of what printExpr prints (parentheses chosen by level, the "**" and "??" operand
-   rules) are parsed by the independent ECMA-262 precedence-climbing parser back to the tree,
+   rules, the isNewTarget rule: a call inside the callee of "new" is parenthesised, at any depth of
+   member access, and a new-expression keeps its "()" when it is itself a member/call target)
+   are parsed by the independent ECMA-262 precedence-climbing parser back to the tree,
    up to norm (left-nesting of comma chains, which the printer prints without parentheses) *)
-Theorem print_parse_tokens : forall e, wf e ->
-  exists n, forall m, (n <= m)%nat -> parse_fuel m (toks (print_items LLowest e)) = Some (norm e).
+Theorem print_parse_tokens : forall mw e, wf e ->
+  exists n, forall m, (n <= m)%nat -> parse_fuel m (toks (print_items mw LLowest e)) = Some (norm e).
 Proof. exact parse_print_items_all. Qed.
 Print Assumptions print_parse_tokens.
 
 (* norm is invisible to the printer (so it only re-associates what is printed identically) and idempotent *)
-Theorem norm_prints_the_same : forall e P, print_items P (norm e) = print_items P e.
+Theorem norm_prints_the_same : forall mw e P, print_items mw P (norm e) = print_items mw P e.
 Proof. exact print_norm. Qed.
 Print Assumptions norm_prints_the_same.
 Theorem norm_idempotent : forall e, norm (norm e) = norm e.
@@ -70,7 +74,7 @@ Print Assumptions norm_idempotent.
 (* every printed well-formed tree is a grammatical chain of well-formed items, so render_lex applies:
    the text of a printed tree lexes to the tokens of its items, in both whitespace modes *)
 Theorem print_lex : forall mw e, wf e -> lexok e ->
-  lex (print_expr mw e) = Some (toks (print_items LLowest e)).
+  lex (print_expr mw e) = Some (toks (print_items mw LLowest e)).
 Proof. exact print_lex_all. Qed.
 Print Assumptions print_lex.
 
